@@ -156,10 +156,52 @@ def register(op):
             if a.get("via_std"):
                 from xdis.std import make_std_api
                 api = make_std_api(tuple(version[:2]), "pypy" if ispypy else None)
-            out["codes"] = [dump_code(c, opc, version, api) for c in walk(co)]
+            dfs = list(walk(co))
+            out["codes"] = [dump_code(c, opc, version, api) for c in dfs]
+            # the order disco_loop lists code objects in: a queue (breadth first)
+            from collections import deque
+            q, order = deque([co]), []
+            while q:
+                c = q.popleft()
+                order.append(next(i for i, d in enumerate(dfs) if d is c))
+                for k in c.co_consts:
+                    if hasattr(k, "co_code"):
+                        q.append(k)
+            out["bfs"] = order
+            if a.get("dup_lines"):
+                from xdis.bytecode import Bytecode
+                for ent, c in zip(out["codes"], dfs):
+                    try:
+                        ent["instrs_dup"] = [[i.offset, i.opcode, i.opname, i.arg, i.argrepr, bool(i.is_jump_target), i.starts_line]
+                                             for i in Bytecode(c, opc, dup_lines=True)]
+                    except Exception as e:  # noqa
+                        ent["instrs_dup_err"] = type(e).__name__
             return out
         finally:
             os.unlink(path)
+
+
+def register_listing(op):
+    @op
+    def listing(a):
+        """disassemble_file(path, outstream, asm_format) on a .pyc image"""
+        import io as _io
+        from xdis.disasm import disassemble_file
+        data = bytes.fromhex(a["pyc"])
+        fd, path = tempfile.mkstemp(suffix=a.get("suffix", ".pyc"))
+        os.write(fd, data)
+        os.close(fd)
+        out = _io.StringIO()
+        try:
+            try:
+                disassemble_file(path, outstream=out, asm_format=a["fmt"])
+                err = None
+            except BaseException as e:  # noqa
+                import traceback
+                err = type(e).__name__ + ":" + str(e)[:100] + " @ " + traceback.format_exc().strip().split("\n")[-3][:120]
+        finally:
+            os.unlink(path)
+        return {"text": out.getvalue(), "err": err}
 
 
 def register_rw(op):
@@ -206,3 +248,4 @@ _reg_pyc = register
 def register(op):  # noqa: F811
     _reg_pyc(op)
     register_rw(op)
+    register_listing(op)
